@@ -8,6 +8,7 @@ import "time"
 // fragmentBuffer 握手消息分片重组缓冲区
 // 用于缓存和重组跨多个 UDP 报文的分片握手消息
 type fragmentBuffer struct {
+	msgType    uint8     // 所属握手消息的类型
 	totalLen   uint24    // 原始消息总长度（来自 handshake.length 字段）
 	data       []byte    // 重组缓冲区
 	received   []byte    // 位掩码：received[i>>3] 的第 (i&7) 位 = 字节索引 i 已收到
